@@ -179,6 +179,7 @@ def stil_case(res, case):
             elif not np.array_equal(got_t, exp_t):
                 bad = np.argwhere(got_t != exp_t)[0].tolist()
                 res.violation(key + '/tests', case, f'tests()[{c.s_nodes[bad[0]].name}, pattern {bad[1]}] = {ref.CHARS[int(got_t[tuple(bad)])]} expected {ref.CHARS[int(exp_t[tuple(bad)])]}; markers {markers} chains {d.chains}\n{text}')
+            if not np.array_equal(np.asarray(s.tests(c)), got_t): res.violation(key + '/tests-second-call', case, 'a second tests() call returns a different array')
             res.count('tests_cases')
         got_r = np.asarray(s.responses(c))
         if got_r.shape != exp_r.shape:
@@ -186,6 +187,7 @@ def stil_case(res, case):
         elif not np.array_equal(got_r, exp_r):
             bad = np.argwhere(got_r != exp_r)[0].tolist()
             res.violation(key + '/responses', case, f'responses()[{c.s_nodes[bad[0]].name}, pattern {bad[1]}] = {ref.CHARS[int(got_r[tuple(bad)])]} expected {ref.CHARS[int(exp_r[tuple(bad)])]}; markers {markers} chains {d.chains}\n{text}')
+        if not np.array_equal(np.asarray(s.responses(c)), got_r): res.violation(key + '/responses-second-call', case, 'a second responses() call returns a different array')
         if case.get('loc'):
             got = np.asarray(s.tests_loc(c))
             snames = [n.name for n in c.s_nodes]
